@@ -256,8 +256,9 @@ def same(a, b):
 HAM_PRELUDE = '''
 from hiten.algorithms.polynomial.base import _init_index_tables, _create_encode_dict_from_clmo, _encode_multiindex, _make_poly
 from hiten.algorithms.dynamics.hamiltonian import create_hamiltonian_system
-def make_hamsys(cubic=1.0):
-    """H = 1/2 |p|^2 + 1/2 |q|^2 + cubic * q1^2 q2  as a hiten polynomial Hamiltonian system (3 dof, degree 3)."""
+def make_hamsys(cubic=1.0, mixed=0.0):
+    """H = 1/2 |p|^2 + 1/2 |q|^2 + cubic * q1^2 q2 + mixed * (q1 p2 q3 + q2 p1 p3)  as a hiten polynomial Hamiltonian system
+    (3 dof, degree 3); mixed != 0 makes it non-separable (dH/dq depends on p and dH/dp on q)."""
     psi, clmo = _init_index_tables(3)
     enc = _create_encode_dict_from_clmo(clmo)
     H = [_make_poly(d, psi) for d in range(4)]
@@ -266,6 +267,8 @@ def make_hamsys(cubic=1.0):
     for i in range(3):
         setc(tuple(2 if j == i else 0 for j in range(6)), 0.5); setc(tuple(2 if j == 3 + i else 0 for j in range(6)), 0.5)
     setc((2, 1, 0, 0, 0, 0), cubic)
+    if mixed:
+        setc((1, 0, 1, 0, 1, 0), mixed); setc((0, 1, 0, 1, 0, 1), mixed)
     return create_hamiltonian_system(H, 3, psi, clmo, enc, n_dof=3)
 Y0 = np.array([0.1, 0.05, 0.0, 0.0, 0.1, 0.02])
 '''
